@@ -19,7 +19,7 @@ import (
 // the last two entries are literals that span two physical lines
 var c12Lines = []string{"", "# cömment ©", `x = "é"`, "\ty = 2", "z = 3", "s = \"first\nsecond\"", "t = 'a' ~ /b\nc/"}
 
-const c12Preset = `numv = 5; arrv = [1, 2]; objv = {k: 1}`
+const c12Preset = `numv = 5; arrv = [1, 2]; objv = {k: 1}; tailv = " and %d"; headv = "%s"`
 
 type c12Fault struct {
 	name    string
@@ -77,7 +77,7 @@ func c12Faults() []c12Fault {
 		c12Fault{"single &", "w = 1 & 2", 6, 7, false},
 	)
 	rt := []string{`1 / 0`, `1 % 0`, `5(1)`, `nofn()`, `"a" ~ "("`, `[1] < 2`, `$nope`, `"a\qb"`, `printf("%s")`, `printf("%d", 1)`, `numv.k = 1`, `arrv["k"] = 1`, `arrv[-9]`, `objv[[1]]`,
-		`match (1) { -1 => 2 }`, `1.2.3`, `"a" ~ /a(/`, `numv !~ /[b-a]/`, `arrv.push()`, `"a".split(1)`, `[printf]`, `numv.k++`,
+		`match (1) { -1 => 2 }`, `1.2.3`, `"a" ~ /a(/`, `numv !~ /[b-a]/`, `printf("%s" + tailv, 1)`, `printf(headv + " %d", 1, 2)`, `arrv.push()`, `"a".split(1)`, `[printf]`, `numv.k++`,
 		`wz /= 0`, `numv.k += 1`, `arrv["k"] -= 1`, `objv.k /= 0`, `numv.k *= 2`,
 		// a failing call whose argument calls a function defined on other lines (which calls again)
 		`printf("%d items", lab(1))`, `nofn(lab(2), lab(3))`, `5(lab(1))`, `arrv.push(lab(1), lab(2))`, `"a".split(lab(1))`}
